@@ -15,7 +15,7 @@ def main():
     prop, sd, wt = sys.argv[1], os.path.abspath(sys.argv[2]), os.path.abspath(sys.argv[3])
     tests = "--tests" in sys.argv
     res = {"property": prop, "seed_dir": sd}
-    sh("git checkout -- . && git clean -fdq", cwd=wt)
+    sh("git reset -q --hard && git clean -fdq", cwd=wt)
     # evaluate against the CURRENT /repo HEAD (fix commits made after the seed was written)
     rc, head = sh("git -C /repo rev-parse HEAD")
     sh("git checkout -q --detach %s" % head.strip(), cwd=wt)
@@ -33,7 +33,7 @@ def main():
         res["apply_out"] = out[-500:]
         json.dump(res, open(os.path.join(sd, "eval.json"), "w"), indent=1)
         print(json.dumps(res, indent=1))
-        sh("git checkout -- . && git clean -fdq", cwd=wt)
+        sh("git reset -q --hard && git clean -fdq", cwd=wt)
         return
     rc1, out1 = sh("/venv/bin/python %s/demo.py" % sd, cwd=wt, env=env, timeout=600)
     res["demo_patched_rc"] = rc1
@@ -58,7 +58,7 @@ def main():
     res["check_detail"] = [l.strip()[:300] for l in out.splitlines() if l.strip().startswith("obligation=")][:5]
     res["check_tail"] = out.strip().splitlines()[-1] if out.strip() else ""
     res["check_other"] = [l[:300] for l in out.splitlines() if l.startswith(("HARNESS-ERROR", "INCONCLUSIVE"))][:5]
-    sh("git checkout -- . && git clean -fdq", cwd=wt)
+    sh("git reset -q --hard && git clean -fdq", cwd=wt)
     json.dump(res, open(os.path.join(sd, "eval.json"), "w"), indent=1)
     print(json.dumps(res, indent=1))
 
